@@ -497,6 +497,78 @@ func expansionEvaluator(b *evalgen.BodyCase) evaluator {
 	}
 }
 
+// twoPassEvaluator reads the expanded body directly, the way gohcl does with a `remain` field: every body is
+// processed in two passes — some attributes first (PartialContent), the other attributes and the blocks from
+// the remaining body — and every attribute is evaluated.  In a generated block the second pass must still see
+// the block's iterator.  onePass: the same walk with a single Content call per body (the reference).
+func twoPassEvaluator(b *evalgen.BodyCase, onePass bool) evaluator {
+	spec := evalgen.BuildSpec(b.Items)
+	return func(s evalgen.Scope) (out string) {
+		defer func() {
+			if r := recover(); r != nil {
+				out = "PANIC: " + fmt.Sprint(r)
+			}
+		}()
+		ctx := evalgen.Ctx(s)
+		var sb strings.Builder
+		var all hcl.Diagnostics
+		var walk func(body hcl.Body, spec hcldec.Spec, ind string)
+		walk = func(body hcl.Body, spec hcldec.Spec, ind string) {
+			schema := hcldec.ImpliedSchema(spec)
+			attrs := hcl.Attributes{}
+			var blocks hcl.Blocks
+			if onePass {
+				content, diags := body.Content(schema)
+				all = append(all, diags...)
+				if content == nil {
+					return
+				}
+				attrs, blocks = content.Attributes, content.Blocks
+			} else {
+				half := len(schema.Attributes) / 2
+				first := &hcl.BodySchema{Attributes: schema.Attributes[:half]}
+				second := &hcl.BodySchema{Attributes: schema.Attributes[half:], Blocks: schema.Blocks}
+				c1, remain, d1 := body.PartialContent(first)
+				all = append(all, d1...)
+				if c1 == nil || remain == nil {
+					return
+				}
+				c2, d2 := remain.Content(second)
+				all = append(all, d2...)
+				if c2 == nil {
+					return
+				}
+				for n, a := range c1.Attributes {
+					attrs[n] = a
+				}
+				for n, a := range c2.Attributes {
+					attrs[n] = a
+				}
+				blocks = c2.Blocks
+			}
+			names := make([]string, 0, len(attrs))
+			for n := range attrs {
+				names = append(names, n)
+			}
+			sort.Strings(names)
+			for _, n := range names {
+				v, d := attrs[n].Expr.Value(ctx)
+				all = append(all, d...)
+				fmt.Fprintf(&sb, "%s%s = %s\n", ind, n, lib.DumpValue(v))
+			}
+			children := hcldec.ChildBlockTypes(spec)
+			for _, blk := range blocks {
+				fmt.Fprintf(&sb, "%sblock %s %q\n", ind, blk.Type, blk.Labels)
+				if cs, ok := children[blk.Type]; ok {
+					walk(blk.Body, cs, ind+"  ")
+				}
+			}
+		}
+		walk(dynblock.Expand(b.Body, ctx), spec, "")
+		return sb.String() + diagSig(all)
+	}
+}
+
 func checkBody(cx *lib.Ctx, r *lib.Rand, b *evalgen.BodyCase, mode string) {
 	res := cx.Res
 	spec := evalgen.BuildSpec(b.Items)
@@ -519,6 +591,15 @@ func checkBody(cx *lib.Ctx, r *lib.Rand, b *evalgen.BodyCase, mode string) {
 			// the walkers find nested specs through hcldec.ChildBlockTypes: same-body wrappers must not hide them
 			nested := nestSameBody(r.Fork(), spec, nil)
 			probes = append(probes, probe{"dynblock.VariablesHCLDec (same-body specs nested)", dynblock.VariablesHCLDec(b.Body, nested), decodeEvaluatorSpec(b, true, nested), evalgen.BodyFreeRoots(b.Tree, false), "dynblock-variables-nested"})
+		}
+		if r.Chance(1, 2) {
+			two, one := twoPassEvaluator(b, false), twoPassEvaluator(b, true)
+			probes = append(probes, probe{"dynblock.VariablesHCLDec (bodies read in two passes)", dynblock.VariablesHCLDec(b.Body, spec), two, evalgen.BodyFreeRoots(b.Tree, false), "dynblock-variables-two-pass"})
+			if a, c := two(b.Scope), one(b.Scope); a != c && !strings.HasPrefix(a, "PANIC") && !strings.HasPrefix(c, "PANIC") {
+				res.Fail(lib.Failure{Kind: "oracle", Key: "two-pass-read-differs-from-one-pass" + classifyBody(b, rootSet(dynblock.VariablesHCLDec(b.Body, spec)), evalgen.BodyFreeRoots(b.Tree, false)),
+					Desc:  "reading every body of the expanded configuration in two passes (some attributes, then the rest from the remaining body) evaluates differently from one pass: a name resolves differently in the second pass",
+					Input: b.Encode("C07", mode, nil), Impl: "two passes:\n" + a + "\none pass:\n" + c})
+			}
 		}
 		probes = append(probes,
 			probe{"dynblock.VariablesHCLDec", dynblock.VariablesHCLDec(b.Body, spec), decodeEvaluator(b, true), evalgen.BodyFreeRoots(b.Tree, false), "dynblock-variables"},
@@ -766,6 +847,7 @@ func run(cx *lib.Ctx) {
 		res.Case(c.Src, true)
 		res.Count("corpus")
 	}
+	directedCustomDecode(cx)
 	R := cx.R.Fork()
 	n := cx.Scale(4000, 90000)
 	for i := 0; i < n; i++ {
